@@ -10,6 +10,33 @@ func init() { register("C04", runC04) }
 
 var c04Stuck int
 
+// c04Noise[i]: bytes of stray acknowledgements sent right after inbound packet i (nil: none)
+var c04Noise [][]byte
+
+func c04RandNoise(r *rand.Rand, n int) [][]byte {
+	out := make([][]byte, n)
+	for i := range out {
+		for r.Intn(3) == 0 {
+			id := uint16(1 + r.Intn(3))
+			switch r.Intn(6) {
+			case 0:
+				out[i] = append(out[i], encID(0x40, id)...) // PUBACK
+			case 1:
+				out[i] = append(out[i], encID(0x50, id)...) // PUBREC
+			case 2:
+				out[i] = append(out[i], encID(0x70, id)...) // PUBCOMP
+			case 3:
+				out[i] = append(out[i], 0x90, 3, byte(id>>8), byte(id), 0) // SUBACK
+			case 4:
+				out[i] = append(out[i], encID(0xB0, id)...) // UNSUBACK
+			default:
+				out[i] = append(out[i], 0xD0, 0) // PINGRESP
+			}
+		}
+	}
+	return out
+}
+
 type c04Pkt struct {
 	Rel bool
 	Msg inMsg
@@ -44,16 +71,60 @@ func (p c04Pkt) desc() string {
 
 // c04Run feeds the packets to a connected BaseClient and returns the reader goroutine's
 // timeline (handler calls and acknowledgement writes are both made by that goroutine).
+// c04DiscPending: the stream arrives while a local Disconnect is in progress (its DISCONNECT write is held
+// by the transport): what the broker sends in that window is still handed over.
+var c04DiscPending bool
+
 func c04Run(handler bool, pkts []c04Pkt) ([]string, []string, error) {
-	s, err := newSession(handler, nil)
+	var gate, reached chan struct{}
+	var onPkt func(s *session, pkt []byte)
+	if c04DiscPending {
+		gate, reached = make(chan struct{}), make(chan struct{}, 1)
+		onPkt = func(s *session, pkt []byte) {
+			if pkt[0] == 0xE0 {
+				reached <- struct{}{}
+				<-gate
+			}
+		}
+	}
+	s, err := newSession(handler, onPkt)
 	if err != nil {
 		return nil, nil, err
 	}
+	if c04DiscPending {
+		go func() {
+			ctx, cancel := ctxTimeout(10 * time.Second)
+			defer cancel()
+			_ = s.cli.Disconnect(ctx)
+		}()
+		select {
+		case <-reached:
+		case <-time.After(8 * time.Second):
+			close(gate)
+			return nil, nil, fmt.Errorf("Disconnect did not reach its write")
+		}
+		defer func() {
+			select {
+			case <-gate:
+			default:
+				close(gate)
+			}
+		}()
+	}
 	var stream []byte
-	for _, p := range pkts {
+	for i, p := range pkts {
 		stream = append(stream, p.bytes()...)
+		// stray acknowledgements from the broker (identifiers from the same small pool) are not part of the
+		// inbound flow: they must not change what the reader does with PUBLISH / PUBREL
+		if c04Noise != nil && i < len(c04Noise) {
+			stream = append(stream, c04Noise[i]...)
+		}
 	}
 	s.conn.send(stream)
+	if c04DiscPending {
+		s.conn.waitReaderIdle(8 * time.Second)
+		close(gate)
+	}
 	s.conn.finish()
 	limit := 8 * time.Second
 	if c04Stuck >= 3 {
@@ -76,6 +147,9 @@ func c04Run(handler bool, pkts []c04Pkt) ([]string, []string, error) {
 			coq = append(coq, "Hand "+cLibMsg(e.Msg))
 			desc = append(desc, fmt.Sprintf("hand(q%d,id%d,#%d)", e.Msg.QoS, e.Msg.ID, e.Msg.Payload[0]))
 		case "write":
+			if e.Pkt[0] == 0xE0 {
+				continue // the held DISCONNECT of the "disconnect pending" family
+			}
 			id := int(e.Pkt[2])<<8 | int(e.Pkt[3])
 			switch e.Pkt[0] {
 			case 0x40:
@@ -226,10 +300,36 @@ func runC04(cfg *runCfg) error {
 				pkts = append(pkts, c04Pkt{Rel: true, ID: id})
 			}
 		}
-		if err := add(r.Intn(5) > 0, pkts); err != nil {
+		c04Noise = nil
+		if i%2 == 1 {
+			c04Noise = c04RandNoise(r, len(pkts))
+		}
+		if i%4 == 2 {
+			sessMaxPayload = 1 // a limit for outbound publishes: inbound messages of any size are unaffected
+		}
+		err := add(r.Intn(5) > 0, pkts)
+		c04Noise = nil
+		sessMaxPayload = 0
+		if err != nil {
 			return err
 		}
 	}
+	// a local Disconnect is in progress (DISCONNECT write held): QoS 0 messages arriving meanwhile are handed over
+	nDisc := 12
+	for i := 0; i < nDisc; i++ {
+		n := 1 + r.Intn(5)
+		var pkts []c04Pkt
+		for j := 0; j < n; j++ {
+			pkts = append(pkts, c04Pkt{Msg: inMsg{Topic: []byte("d/q0"), QoS: 0, Retain: r.Intn(2) == 0, Payload: []byte{byte(j + 1), byte(i)}}})
+		}
+		c04DiscPending = true
+		err := add(true, pkts)
+		c04DiscPending = false
+		if err != nil {
+			return err
+		}
+	}
+	m.Distribution["disconnect_pending"] = nDisc
 	cf.def("in_cases", "list (bool * list in_pkt * list in_event)", cList(cases))
 	cf.result("V_in", "c04_spec_violations in_cases")
 	cf.result("M_in", "c04_model_mismatches in_cases")
